@@ -1,5 +1,7 @@
 package jmespath
 
+import "strconv"
+
 // C19: let-bindings are lexically scoped and capture the value at binding time.
 
 var c19Exprs = []string{
@@ -111,5 +113,30 @@ func H_C19_exprefs() {
 	doc := map[string]any{"k": "kk", "b": elems}
 	expr := c19ExprefForms[f]
 	vrtNote("template:" + expr)
+	diffSearch(expr, doc, false)
+}
+
+// H_C19_deep: shadowing through 2..14 nested lets (scope chains that an
+// implementation may flatten or cache beyond some depth): the innermost
+// binding of a name wins, bindings of the levels in between stay visible.
+func H_C19_deep() {
+	d := 2 + vrtChoose("depth", 13)
+	vrtSpec(2, 2, 1, "a,b", smASCII, nfInt, 0)
+	vrtNumRange(0, 2)
+	doc := vrtDoc("d", 2, uObj, uJNum|uStr|uNil)
+	shadowAt := vrtChoose("shadow", 3) // where the second binding of $v sits: innermost, middle, none
+	expr := "let $v = a in "
+	for i := 1; i < d; i++ {
+		name := "$w" + strconv.Itoa(i)
+		if (shadowAt == 0 && i == d-1) || (shadowAt == 1 && i == (d+1)/2) {
+			name = "$v"
+		}
+		expr += "let " + name + " = " + []string{"b", "`7`", "a"}[i%3] + " in "
+	}
+	expr += "[$v, $w1, a]"
+	if d == 2 && shadowAt != 2 {
+		expr = "let $v = a in let $v = b in [$v, a]"
+	}
+	vrtNote("template:shadowing through nested lets")
 	diffSearch(expr, doc, false)
 }
